@@ -86,7 +86,8 @@ class SymDT(datetime):
         raise Unsupported("pickle SymDT")
 
     def __repr__(self):
-        return f"SymDT({self.t})"
+        s = self.t.sexpr()
+        return f"SymDT({s if len(s) <= 120 else s[:120] + '...'})"
 
     __str__ = __repr__
 
